@@ -158,7 +158,7 @@ PROPS["C23"] = dict(
     text="Decides whether the unit the server implements for `character` equals the encoding it declares to the client, and "
          "whether its line-terminator set equals the protocol's. Both disagree on the pinned tree (two open known findings); "
          "the rule passes once either side is changed to agree and fires again on regression.",
-    note="Does not decide the arithmetic of the conversions (C22 not applicable). Trusted: rustc MIR, emmyfacts.")
+    note="Does not decide the arithmetic of the conversions (C22 decides only the guard and clamp-provenance clauses). Trusted: rustc MIR, emmyfacts.")
 
 PROPS["C41"] = dict(
     module="c41", func="run", level="other", crates=["emmylua_code_analysis"],
